@@ -181,7 +181,10 @@ def _one_name(platform, version, proto, name, ctx):
                          [gold])
     # the name must be split as a port (not as an option) in both positions of an ACE
     if True:
-        for pos, text in (("dst", f"permit {proto} any any eq {name} log"),
+        pnum = "6" if proto == "tcp" else "17"
+        for pos, text in (("dst", f"permit {pnum} any any eq {name} log"),
+                          ("src", f"permit {pnum} any eq {name} any log"),
+                          ("dst", f"permit {proto} any any eq {name} log"),
                           ("src", f"permit {proto} any eq {name} any log"),
                           ("dst+flag", f"permit {proto} any any eq {name} "
                                        + ("ack log" if proto == "tcp" else "log"))):
